@@ -38,7 +38,11 @@ func main() {
 	if exe, err := os.Executable(); err == nil {
 		if data, err := os.ReadFile(exe + ".sites"); err == nil {
 			for _, n := range strings.Split(string(data), "\n") {
-				if n != "" {
+				if strings.HasPrefix(n, "time:") {
+					sim.UsesClock = true
+				} else if strings.HasPrefix(n, "go:") {
+					sim.MayFork = true
+				} else if n != "" {
 					sim.RegSite(n)
 				}
 			}
